@@ -156,3 +156,8 @@ package wkbcommon
 //@ func Scan(g, d) (geom, srid, valid, err)
 //@   requires destOK(g)
 //@   ensures err == ErrNotWKBHeader ==> istype(d, []byte) && len(as(d, []byte)) >= 5
+
+// the sums of GeomLength are treated as mathematical integers (an overflow needs more than 2^47
+// bytes of geometry, or headers aliasing one huge array; listed as an assumption)
+//@ func GeomLength(geom, ewkb)
+//@   ovf assume
